@@ -20,6 +20,22 @@ snippet cases runs after unitconvert.reset_units (named units, integer seeds, 'S
 those units, optionally after the same dump under the default or yet another configuration in the same process; the
 default units are restored in a finally block.
 
+Cross-pollination round (generator classes that caught seeded changes in other properties; helpers in pbt/gens_c07.py):
+(A) result ledger, clause ledger: sequences of writer calls whose returned objects (content, snippet, the prop_info list of
+return_prop_info=True, the file-like object) and systems are kept and re-read bit for bit after later calls on the same and
+other objects, every call repeated on fresh objects; (B) caller side: every oracle checks that the System, the arrays it was
+built from and list arguments are bit-identical after the call (all of it for the non-modifying writers and safecopy=True,
+everything but positions and cell for the documented in-place wrap); a share of the systems are `recycled` objects (built in
+another state, written in all formats, then overwritten in place / through the setters into the case's state); the ledger
+hands the returned prop_info back in as a hand-typed prop_info= list and lets the caller scribble over everything it was
+handed before the calls are repeated; (C) form `narrow`: per-atom arrays stored as float32 / float16 / big-endian / int8 ..
+uint32 with the limits of the dtype in the free integer columns, positions too for dump files and POSCAR, numpy scalars for
+natypes / box_scale; the system's values are the stored ones; (E) atoms 1e-12 .. 1e-3 from a face (all formats), POSCAR scale
+factors that close to one; (F) `decades`: per-atom values scaled by one power of ten per atom, 12 decades apart, every row
+judged to its own printed precision and token-identical to the same atom written alone; (G) `sym`: tilts of exactly half a
+length, equal lengths / tilts, centred origin, POSCAR cells relabelled by one of the 23 proper signed axis permutations;
+(H) all four position columns of a dump file in every sampled order (hybrids: clause hybrid_shared).
+
 Listed findings: a disagreement that belongs to an `open:` key of known_findings.txt is collected (class Known)
 and raised only after all other checks of the case have run, so the rest of the oracle stays active behind it;
 blocking ones (the writer raises) are raised at once.  The share guards of the two clauses that are blocked as a
@@ -37,6 +53,7 @@ from hypothesis import strategies as st
 
 from ..core import Clause, Violation, require
 from .. import gens
+from .. import gens_c07 as g7
 from ..oracles import lammps_units as LU
 from ..oracles import lammps_data as LD
 from ..oracles import lammps_dump as LP
@@ -56,7 +73,12 @@ RULE = ("systems: LAMMPS-compatible cells (orthogonal/triclinic, lengths 0.5-50,
         "after earlier non-modifying dumps/reads on the same object; data/snippet: ~25 % hybrids of 2-3 sub-styles sharing a column "
         "(mostly under unit styles that rescale it; all combinations enumerated in clause hybrid_shared); all formats: ~18 % cells "
         "with tilt/length = +-10**[-12,-3]; data/dump/snippet: ~25 % under other process-wide working units (named | seed | SI), "
-        "three quarters of them after the same dump under the default / another configuration")
+        "three quarters of them after the same dump under the default / another configuration; all clauses: ~20 % atoms 1e-12..1e-3 "
+        "from a face, ~15 % exactly structured cells (half tilts, equal lengths/tilts, centred origin; POSCAR: signed axis permutations), "
+        "~2/9 per-atom arrays stored narrow / non-native (float32, float16, big-endian, int8..uint32 at the dtype limits; numpy scalar "
+        "arguments), ~1/7 recycled System objects (earlier state written, then overwritten in place / through setters); data/dump: ~15 % "
+        "per-atom values spanning 12 decades; POSCAR: ~1/6 scale factors 1e-12..1e-3 from one; ledger: 2-3 calls, everything returned "
+        "and handed in re-read after later calls, calls repeated on fresh objects before and after the caller overwrote its objects")
 ASSUMPTIONS = [
     "the SI values of the LAMMPS units are those of the manual's units page (pbt/oracles/lammps_units.py); working-unit "
     "numbers are taken to SI with the plain base units m, kg, s, C of atomman.unitconvert (judged by C09)",
@@ -79,12 +101,22 @@ ASSUMPTIONS = [
     "working units: unitconvert.reset_units applies a configuration (C09); a system 'in other working units' is the same physical "
     "system, numbers rescaled with own factors from numericalunits attributes; the potential route's mass numbers are compared "
     "only while amu is the working mass unit; POSCAR files carry working-unit numbers unconverted and are not run under other units",
+    "storage dtypes: Atoms keeps the dtype of the arrays it is given (documented: values are converted to numpy arrays, existing "
+    "keys are saved over); the system's values are the stored ones (floats rounded to the dtype by the check, so exactly representable). "
+    "Positions of data files are not stored narrow: the documented in-place wrap saves the wrapped coordinates over the stored "
+    "array, i.e. rounds them to the storage dtype (Atoms semantics, judged by C06)",
+    "recycled objects: overwriting system.atoms.<prop>[...] / system.atoms.<prop> = value / atoms_prop(key, value=), Box.set / "
+    "System.box_set and the pbc setter are the documented ways of re-defining a System; the atom types are not re-defined",
+    "returned prop_info (atom_dump, return_prop_info=True): documented as the filled-in structure that allows 1:1 load/dump "
+    "conversions - it lists the file's columns in order, belongs to the caller, and prop_info= re-typed from it gives the same file",
 ]
 LEVEL_TEXT = ("Generated systems x atom styles (all hybrids of 2-3 sub-styles with a shared column enumerated) x unit styles x float "
               "formats (x input forms, earlier uses of the object, potential= with overriding arguments, string/file-like/file-name "
               "sinks, almost orthogonal cells, other process-wide working units incl. after earlier dumps in the process) written with dump('atom_data'|'atom_dump'|"
               "'poscar') and read by independent parsers: structure, counts, bounds/tilt conventions, ids, containment, "
-              "and every column against the snapshot converted with an independent unit table, to the printed precision.")
+              "and every column against the snapshot converted with an independent unit table, to the printed precision.  Cross-cutting: "
+              "atoms next to faces, exactly structured cells, values over 12 decades, narrow / non-native storage dtypes, recycled objects, "
+              "arguments and systems bit-identical after every call, and a ledger of returned objects re-read after later calls.")
 TECHNIQUE = "independent LAMMPS data/dump and POSCAR readers + LAMMPS-manual unit table; printed-precision interval comparison"
 WALL = {'quick': 60, 'thorough': 540}
 
@@ -92,6 +124,15 @@ EPS = 2.3e-16
 
 
 # ============================================================================= small helpers
+
+def cell_vects7(c):
+    """cell vectors of a case: gens.cell_vects, for POSCAR cases optionally with the axes relabelled by a proper signed
+    permutation P (exact: every component is +- one component of the LAMMPS cell)"""
+    V = gens.cell_vects(c)
+    if c.get('P') is not None:
+        V = V @ np.array(c['P'], dtype=float).T + 0.0
+    return V
+
 
 def half(tok):
     """half a unit in the last printed digit of a numeric token"""
@@ -138,6 +179,9 @@ K_LJ_DUMP = 'C07:dump:lj:torque-none'
 K_POSCAR_COUNT = 'C07:poscar:count-eq-list'
 K_POSCAR_CART = 'C07:poscar:cartesian-scale'
 K_POSCAR_NTYPES = 'C07:poscar:unused-last-type'
+K_NARROW = 'C07:narrow-float-column:unit-conversion-in-storage-dtype'
+K_BIGENDIAN = 'C07:big-endian-columns:writer-raises'
+K_POSCAR_NARROW = 'C07:poscar:narrow-float-positions:scale-division-in-storage-dtype'
 
 
 def base_units():
@@ -145,9 +189,10 @@ def base_units():
     return {k: float(uc.unit[k]) for k in ('m', 'kg', 's', 'C')}
 
 
-def cmp_value(kn, what, tok, exp_w, quantity, units, hybrid, base, extra_abs=0.0):
+def cmp_value(kn, what, tok, exp_w, quantity, units, hybrid, base, extra_abs=0.0, store=None):
     """token against exp_w (working units) converted to `units`; True if it agrees.  A disagreement that belongs
-    to a listed finding is recorded in kn, any other raises."""
+    to a listed finding is recorded in kn, any other raises.  store: name of the narrow float dtype the column is stored
+    in (exp_w is exactly representable in it)."""
     got, h = fv(tok)
     f, rel = LU.factor(units, quantity, base)
     exp = exp_w * f
@@ -156,6 +201,16 @@ def cmp_value(kn, what, tok, exp_w, quantity, units, hybrid, base, extra_abs=0.0
         return True
     detail = ('%s: file has %s, the system value %.17g converted to %s %s is %.17g (|diff| %.3g > tol %.3g)'
               % (what, tok, exp_w, units, quantity or 'dimensionless', exp, abs(got - exp), tol))
+    if store is not None and f != 1.0:
+        # the value the conversion gives when it is carried out in the storage dtype (factor rounded to the dtype,
+        # quotient rounded / flushed to zero / overflowing there)
+        with np.errstate(all='ignore'):
+            emu = float(np.asarray(exp_w, dtype=store) / np.asarray(1.0 / f, dtype=store))
+        eps_s = float(np.finfo(store).eps)
+        if (np.isfinite(emu) and abs(got - emu) <= tol + 4 * eps_s * abs(emu)) or abs(got - exp) <= tol + 4 * eps_s * abs(exp) \
+                or (not np.isfinite(emu) and not np.isfinite(got)):
+            kn.add(detail + ' [column stored as %s: the conversion was carried out in %s]' % (store, store), K_NARROW)
+            return False
     if hybrid and quantity is not None and units != 'metal':
         fm, relm = LU.factor('metal', quantity, base)
         if abs(got - exp_w * fm) <= h * 1.0001 + (relm + 16 * EPS) * abs(exp_w * fm) + extra_abs:
@@ -377,6 +432,7 @@ def gen_symbols(rng, natypes, mode):
 # cleaned one (cleaned_vects below); ratios within 10 % of that rung are moved off it by construction.
 _TINY_ONE = st.tuples(st.sampled_from((0, 1, 2, 2, 2)), st.floats(-12.0, -3.0, allow_nan=False), st.sampled_from((-1.0, 1.0)))
 _TINY = st.one_of(st.none(), st.none(), st.none(), st.none(), st.tuples(_TINY_ONE, _TINY_ONE, _TINY_ONE))
+_TINY_SN = st.one_of(st.none(), st.none(), st.none(), st.tuples(_TINY_ONE, _TINY_ONE, _TINY_ONE))      # (snippet clause: a little more often)
 CLEAN_RUNG = 1e-9
 
 
@@ -444,7 +500,7 @@ _S_CFG = st.one_of(_named_cfg(), _named_cfg(), _named_cfg(), _named_cfg(),
                    st.builds(lambda v: {'kind': 'seed', 'seed': v}, st.integers(0, 2 ** 31 - 1)),
                    st.just({'kind': 'SI'}), st.just(DEFAULT_CFG))
 _WU_ON = st.sampled_from((False, False, True))
-_WU_PRE = st.sampled_from(('none', 'default', 'default', 'other'))
+_WU_PRE = st.sampled_from(('none', 'default', 'default', 'other', 'other'))
 
 
 def _other_than(cfg, ref):
@@ -556,9 +612,11 @@ def under_units(inner, pre_call):
 
 
 # ----------------------------------------------------------------------------- input forms and object history
-FORMS = ('array', 'array', 'array', 'list', 'fortran', 'readonly', 'strided')
+FORMS = ('array', 'array', 'list', 'fortran', 'readonly', 'strided', 'narrow')      # (the older forms keep their 1/7 each)
 PRE_OPS = ('data_safe', 'dump', 'poscar', 'read')
 PRE_UNITS = ('metal', 'real', 'si', 'nano')
+RECYCLE = ('inplace', 'setter')
+LIMIT_PROPS = ('m_id', 'e_id', 'tag')       # integer columns free to take any value: put at the limits of the storage dtype
 
 
 def gen_form_history(rng):
@@ -570,6 +628,68 @@ def gen_form_history(rng):
         for _ in range(int(rng.integers(1, 3))):
             pre.append([PRE_OPS[int(rng.integers(0, len(PRE_OPS)))], PRE_UNITS[int(rng.integers(0, len(PRE_UNITS)))]])
     return form, pre
+
+
+def finish_case(case, rng, narrow_pos):
+    """input form, earlier uses of the object, and the two caller-side classes that need numbers in the case:
+    narrow   the per-atom arrays (and, narrow_pos, the positions) are STORED in a narrow / non-native dtype (g7.FLOAT_DT,
+             g7.INT_DT); the oracle takes the stored values (floats rounded to the dtype: exactly representable) as the
+             system's values; free integer columns get the limits of the dtype
+    recycle  the System object lived before: built in another state (other positions, values, cell, pbc), written in all
+             three formats, then overwritten in place / re-defined through the setters into the case's state"""
+    case['form'], case['pre'] = gen_form_history(rng)
+    case['recycle'] = RECYCLE[int(rng.integers(0, 2))] if rng.integers(0, 7) == 0 else None
+    if case['form'] != 'narrow':
+        return case
+    nr = g7.gen_narrow(rng, allow_f16=case.get('decades') is None)
+    nr['pos'] = bool(narrow_pos)
+    case['narrow'] = nr
+    lo, hi = g7.int_limits(nr['i'])
+    props = case['props']
+    n = len(case['atype'])
+    for name in LIMIT_PROPS:
+        if name in props:
+            props[name] = list(props[name])
+            props[name][int(rng.integers(0, n))] = hi
+            if name == 'tag' and lo < 0 and n > 1:
+                props[name][int(rng.integers(0, n))] = lo
+    if 'atom_id' in props:
+        props['atom_id'] = [hi - int(k) for k in rng.permutation(n + 3)[:n]]
+    return case
+
+
+def narrowed(case):
+    """the case with the numbers a narrow storage dtype holds (float columns rounded to the dtype: the system's values ARE
+    the stored ones).  Numbers that leave the range of the dtype (other working units) are stored as doubles."""
+    if case.get('form') != 'narrow':
+        return case
+    nr = case['narrow']
+    out = dict(case)
+    props = {}
+    for name, v in case['props'].items():
+        if name == 'atom_id' or PROPGEN[name][0] == 'int':
+            props[name] = v
+            continue
+        with np.errstate(over='ignore', under='ignore'):
+            b = np.array(v, dtype=float).astype(nr['f']).astype(float)
+        if not np.all(np.isfinite(b)):
+            out['narrow'] = dict(nr, f='float64')
+            return out
+        props[name] = b.tolist()
+    out['props'] = props
+    if nr['scalar'] and isinstance(case.get('scale'), float):
+        out['scale'] = float(np.dtype(nr['f'] if nr['f'] in ('float32', 'float16') else 'float32').type(case['scale']))
+    return out
+
+
+def narrow_of(case):
+    return case['narrow'] if case.get('form') == 'narrow' else None
+
+
+def narrow_float(case):
+    """name of the narrow float dtype the float columns are stored in (None: doubles)"""
+    nr = narrow_of(case)
+    return nr['f'] if nr is not None and nr['f'] in ('float32', 'float16') else None
 
 
 # ----------------------------------------------------------------------------- potential= route
@@ -662,15 +782,31 @@ def add_pot(case, rng, want_override):
                  'masses': masses, 'comments_kw': comments_kw, 'prior': prior})
 
 
+def add_decades(case, seed):
+    """per-atom float values (not the positions) scaled by one power of ten per atom, 12 decades between the extremes"""
+    ks = g7.decade_exponents(seed, len(case['atype']))
+    case['decades'] = None
+    if ks is None:
+        return
+    hit = False
+    for name in list(case['props']):
+        if name != 'atom_id' and PROPGEN[name][0] != 'int':
+            case['props'][name] = g7.scale_rows(case['props'][name], ks)
+            hit = True
+    if hit:
+        case['decades'] = ks
+
+
 _POTSHARE_DATA = st.sampled_from((False, False, False, True))
 _POTSHARE_SNIPPET = st.sampled_from((False, True, True))
 
 
 @st.composite
 def data_cases(draw):
-    c = apply_tiny(draw(_CELLS_LMP), draw(_TINY))
+    c = apply_tiny(g7.apply_sym(draw(_CELLS_LMP), draw(g7.SYM)), draw(_TINY))
     pbc = draw(gens.pbcs)
-    rel = draw(_REL)
+    rel = g7.apply_near(draw(_REL), draw(g7.NEAR))
+    dec = draw(g7.DECADES)
     style = draw(_ALLSTYLES)
     units = draw(_units_for(style))
     fmt = draw(_fmt_for(units))
@@ -691,9 +827,11 @@ def data_cases(draw):
             'units_arg': None if (units == 'metal' and bits & 8) else units,
             'safecopy': bool(bits & 16), 'return_info': bool(bits & 32),
             'natypes_extra': 1 if (bits & 256) else 0, 'sink': ('str', 'str', 'path', 'io')[(bits >> 10) & 3]}
+    add_decades(case, dec)
     if draw(_POTSHARE_DATA):
         add_pot(case, rng, False)
-    case['form'], case['pre'] = gen_form_history(rng)
+    finish_case(case, rng, narrow_pos=False)
+    case['sink'] = ('str', 'str', 'path', 'io')[int(rng.integers(0, 4))]
     case['wu'] = draw(_WU)
     return case
 
@@ -706,9 +844,10 @@ _UNITS_ALL = st.sampled_from(UNITS)
 
 @st.composite
 def dump_cases(draw):
-    c = apply_tiny(draw(_CELLS_LMP), draw(_TINY))
+    c = apply_tiny(g7.apply_sym(draw(_CELLS_LMP), draw(g7.SYM)), draw(_TINY))
     pbc = draw(gens.pbcs)
-    rel = draw(_REL)
+    rel = g7.apply_near(draw(_REL), draw(g7.NEAR))
+    dec = draw(g7.DECADES)
     units = draw(_UNITS_ALL)
     fmt = draw(_fmt_for(units))
     bits = draw(_BITS)
@@ -724,17 +863,22 @@ def dump_cases(draw):
     explicit = None
     if bits & 2:
         # explicit prop_name list: ids, types, 1-3 position variants, then a subset of the other properties
-        k = int(rng.integers(1, 4))
+        k = int(rng.integers(1, 5))
         variants = [POSVARIANTS[int(i)] for i in rng.permutation(4)[:k]]
         others = [p for p in props if p != 'atom_id' and rng.integers(0, 2)]
         explicit = ['atom_id', 'atype'] + variants + others
-    form, pre = gen_form_history(rng)
-    return {'cell': c, 'pbc': pbc, 'rel': rel, 'atype': atype, 'props': props, 'symbols': None,
-            'units': units, 'fmt': fmt, 'prop_name': explicit, 'sink': 'io' if (bits & 12) == 12 else 'str',
-            'form': form, 'pre': pre, 'wu': draw(_WU)}
+    case = {'cell': c, 'pbc': pbc, 'rel': rel, 'atype': atype, 'props': props, 'symbols': None,
+            'units': units, 'fmt': fmt, 'prop_name': explicit, 'sink': 'io' if (bits & 12) == 12 else 'str'}
+    add_decades(case, dec)
+    finish_case(case, rng, narrow_pos=True)
+    case['wu'] = draw(_WU)
+    return case
 
 
-_SCALES = st.sampled_from([1.0, 1.0, 0.5, 3.7, 'a'])
+_SCALES_PLAIN = st.sampled_from([1.0, 1.0, 0.5, 3.7, 'a'])
+# scale factors 1e-12 .. 1e-3 away from one (a "scale is one" shortcut with a tolerance would show)
+_SCALES_NEAR1 = st.tuples(st.floats(-12.0, -3.0, allow_nan=False), st.sampled_from((-1.0, 1.0))).map(lambda t: 1.0 + t[1] * 10.0 ** t[0])
+_SCALES = st.one_of(_SCALES_PLAIN, _SCALES_PLAIN, _SCALES_PLAIN, _SCALES_PLAIN, _SCALES_PLAIN, _SCALES_NEAR1)
 _COORD = st.sampled_from(['direct', 'cartesian', 'Direct', 'Cartesian'])
 _PFMT = st.sampled_from([None, '%.13f', '%.8f', '%.5e', '%.16e'])
 _HEADER = st.sampled_from(['', 'generated', 'Fe3 O4  # comment', '  two  words '])
@@ -742,8 +886,12 @@ _HEADER = st.sampled_from(['', 'generated', 'Fe3 O4  # comment', '  two  words '
 
 @st.composite
 def poscar_cases(draw):
-    c = apply_tiny(draw(_CELLS_ANY), draw(_TINY))
-    rel = draw(_REL)
+    c = apply_tiny(g7.apply_sym(draw(_CELLS_ANY), draw(g7.SYM)), draw(_TINY))
+    perm = draw(g7.PERM)
+    if perm is not None:
+        # axes relabelled by a proper signed permutation instead of a generic rotation
+        c = dict(c, rot=None, P=g7.PROPER24[perm])
+    rel = g7.apply_near(draw(_REL), draw(g7.NEAR))
     scale = draw(_SCALES)
     coord = draw(_COORD)
     fmt = draw(_PFMT)
@@ -759,15 +907,17 @@ def poscar_cases(draw):
         sym_arg = [s for s in gen_symbols(rng, natypes, 1)]
     if scale == 'a':
         scale = c['lx']
-    form, pre = gen_form_history(rng)
-    return {'cell': c, 'pbc': draw(gens.pbcs), 'rel': rel, 'atype': atype, 'props': {}, 'symbols': syms,
-            'symbols_arg': sym_arg, 'scale': scale, 'coord': coord, 'fmt': fmt, 'header': draw(_HEADER),
-            'sink': 'io' if (bits & 48) == 48 else 'str', 'form': form, 'pre': [q for q in pre if q[0] == 'read']}
+    case = {'cell': c, 'pbc': draw(gens.pbcs), 'rel': rel, 'atype': atype, 'props': {}, 'symbols': syms,
+            'symbols_arg': sym_arg, 'scale': float(scale), 'coord': coord, 'fmt': fmt, 'header': draw(_HEADER),
+            'sink': 'io' if (bits & 48) == 48 else 'str'}
+    finish_case(case, rng, narrow_pos=True)
+    case['pre'] = [q for q in case['pre'] if q[0] == 'read']
+    return case
 
 
 @st.composite
 def snippet_cases(draw):
-    c = apply_tiny(draw(_CELLS_LMP), draw(_TINY))
+    c = apply_tiny(g7.apply_sym(draw(_CELLS_LMP), draw(g7.SYM)), draw(_TINY_SN))
     pbc = draw(gens.pbcs)
     rel = draw(_REL_SMALL)
     style = draw(_ALLSTYLES)
@@ -783,7 +933,8 @@ def snippet_cases(draw):
             'sink': ('str', 'str', 'path', 'io')[(bits >> 10) & 3]}
     if draw(_POTSHARE_SNIPPET):
         add_pot(case, rng, bool(bits & 16))
-    case['form'], case['pre'] = gen_form_history(rng)
+    finish_case(case, rng, narrow_pos=False)
+    case['sink'] = ('str', 'str', 'path', 'io')[int(rng.integers(0, 4))]
     case['wu'] = draw(_WU)
     return case
 
@@ -794,13 +945,21 @@ def snapshot(case):
     """cell vectors of the system (what a Box holds for the vectors handed over: cleaned_vects), origin, relative
     coordinates in that cell, absolute positions"""
     c = case['cell']
-    V0 = gens.cell_vects(c)
+    V0 = cell_vects7(c)
     o = gens.cell_origin(c)
     s0 = np.array(case['rel'], dtype=float)
     x0 = s0 @ V0 + o
     V, onrung = cleaned_vects(V0)
     if onrung:
         raise OnRung()
+    nr = narrow_of(case)
+    if nr is not None and nr.get('pos'):
+        # positions stored in a narrow dtype: the system's positions are the stored (rounded) ones
+        with np.errstate(over='ignore', under='ignore'):
+            xb = x0.astype(nr['f']).astype(float)
+        if np.all(np.isfinite(xb)) and not np.array_equal(xb, x0):
+            x0 = xb
+            s0 = (x0 - o) @ np.linalg.inv(V)
     if not np.array_equal(V, V0):
         s0 = (x0 - o) @ np.linalg.inv(V)
     return V, o, s0, x0
@@ -816,12 +975,32 @@ def is_tilted(V):
     return bool(V[1, 0] or V[2, 0] or V[2, 1])
 
 
-def build_system(am, case, V, o, x0):
+def _icast(a, dt):
+    """integer array in the storage dtype dt when every value fits (else as it is)"""
+    lo, hi = g7.int_limits(dt)
+    a = np.asarray(a)
+    if a.size and int(a.min()) >= lo and int(a.max()) <= hi:
+        return a.astype(dt)
+    return a
+
+
+def _donor(a, k, shift=0.5):
+    """other numbers of the same shape, dtype and kind (the earlier life of a recycled object)"""
+    if isinstance(a, list):
+        return _donor(np.array(a), k, shift).tolist()
+    if a.dtype.kind in 'iub':
+        return np.roll(a, 1, axis=0)
+    return (np.roll(a, 1, axis=0) * (-1.25 if k % 2 else 0.75) + (shift if k % 3 else 0.0)).astype(a.dtype)
+
+
+def build_system(am, case, V, o, x0, held=None):
+    """the System of a case, handed to atomman in the case's input form.  `held` (a dict) receives the objects the caller
+    handed in, so that the oracle can check that a call left them alone."""
     form = case.get('form', 'array')
     props = {k: np.array(v) for k, v in case['props'].items()}
     atype = np.array(case['atype'], dtype=int)
     pos = x0.copy()
-    vects, origin = gens.cell_vects(case['cell']), o.copy()      # as given: the clean-up is Box's
+    vects, origin = cell_vects7(case['cell']), o.copy()      # as given: the clean-up is Box's
     pbc = list(case['pbc'])
     if form == 'list':
         # plain Python sequences (floats convert exactly)
@@ -843,6 +1022,39 @@ def build_system(am, case, V, o, x0):
     elif form == 'readonly':
         for a in [pos, vects, origin, atype] + list(props.values()):
             a.setflags(write=False)
+    elif form == 'narrow':
+        # narrow / non-native storage dtypes; every value is exactly representable (narrowed(), snapshot())
+        nr = case['narrow']
+        atype = _icast(atype, nr['i'])
+        for k, v in list(props.items()):
+            if v.dtype.kind in 'iu':
+                props[k] = _icast(v, nr['i'])
+            else:
+                with np.errstate(over='ignore', under='ignore'):
+                    w = v.astype(nr['f'])
+                if np.array_equal(w.astype(float), v):
+                    props[k] = w
+        if nr.get('pos'):
+            with np.errstate(over='ignore', under='ignore'):
+                w = pos.astype(nr['f'])
+            if np.array_equal(w.astype(float), pos):
+                pos = w
+        pbc = np.array(case['pbc'], dtype=np.bool_)
+    target = None
+    if case.get('recycle'):
+        # the object's earlier life: same atoms (types), other positions / values / cell / periodicity
+        target = (pos, props, vects, origin, pbc)
+        size = float(np.abs(np.array(vects, dtype=float)).max())         # (shifts in units of the cell: any working units)
+        pos = _donor(pos, 1, 0.5 * size)
+        props = {k: (v if k == 'atom_id' else _donor(v, i)) for i, (k, v) in enumerate(props.items())}
+        dv = np.array(vects, dtype=float) * 1.5
+        vects = dv.tolist() if isinstance(vects, list) else dv
+        do = np.array(origin, dtype=float) + 2.5 * size
+        origin = do.tolist() if isinstance(origin, list) else do
+        pbc = [not b for b in case['pbc']]
+    if held is not None and target is None:
+        held.update({'pos': pos, 'atype': atype, 'vects': vects, 'origin': origin})
+        held.update({'prop:' + k: v for k, v in props.items()})
     # read-only arrays: Atoms documents that without safecopy a property may point to the caller's array (the in-place
     # wrap of dump then has nothing to write to: documented aliasing, not judged), so they go in with safecopy=True
     atoms = am.Atoms(atype=atype, pos=pos, safecopy=(form == 'readonly'), **props)
@@ -851,6 +1063,25 @@ def build_system(am, case, V, o, x0):
     if case.get('masses') is not None:
         kw['masses'] = list(case['masses'])
     system = am.System(atoms=atoms, box=box, pbc=pbc, symbols=case.get('symbols'), scale=False, **kw)
+    if target is not None:
+        # written in every format in its earlier state (whatever a writer keeps is kept now) ...
+        system.dump('poscar')
+        if not (case['cell'].get('rot') or case['cell'].get('P')):
+            system.dump('atom_dump')
+            system.dump('atom_data', safecopy=True)
+        # ... then the caller overwrites it in place / re-defines it through the setters
+        tpos, tprops, tvects, torigin, tpbc = target
+        if case['recycle'] == 'inplace':
+            system.atoms.pos[:] = tpos
+            for k, v in tprops.items():
+                system.atoms.view[k][...] = v
+            system.box.set(vects=tvects, origin=torigin)
+        else:
+            system.atoms.pos = tpos
+            for k, v in tprops.items():
+                system.atoms_prop(key=k, value=v)
+            system.box_set(vects=tvects, origin=torigin)
+        system.pbc = tpbc
     for op, u in case.get('pre') or []:
         # earlier use of the same object that is documented to leave it as it is
         if op == 'data_safe':
@@ -864,10 +1095,74 @@ def build_system(am, case, V, o, x0):
     return system
 
 
+def sys_state(system, held=None):
+    """copies of everything a writer is handed: per-atom arrays, cell, periodicity, symbols, masses and (held) the
+    caller's own arrays"""
+    st_ = {'view:' + k: np.array(v, copy=True) for k, v in system.atoms.view.items()}
+    st_['vects'] = np.array(system.box.vects, copy=True)
+    st_['origin'] = np.array(system.box.origin, copy=True)
+    st_['pbc'] = np.array(system.pbc, copy=True)
+    st_['symbols'] = tuple(system.symbols)
+    st_['masses'] = tuple(system.masses)
+    for k, v in (held or {}).items():
+        st_['caller:' + k] = copy.deepcopy(v)
+    return st_
+
+
+def _same(a, b):
+    if isinstance(a, np.ndarray) or isinstance(b, np.ndarray):
+        return (isinstance(a, np.ndarray) and isinstance(b, np.ndarray) and a.dtype == b.dtype and a.shape == b.shape
+                and np.array_equal(a, b))
+    return type(a) is type(b) and a == b
+
+
+def state_diff(before, after, skip=()):
+    """names of the pieces that are not bit-identical (dtype, shape, values)"""
+    return [k for k in before if k not in skip and (k not in after or not _same(before[k], after[k]))] + \
+           [k for k in after if k not in before and k not in skip]
+
+
+def require_untouched(before, system, held, what, skip=()):
+    diff = state_diff(before, sys_state(system, held), skip)
+    require(not diff, lambda: '%s changed what the caller handed in: %s' % (what, ', '.join(diff)))
+
+
 def form_labels(case, labels):
     labels.add('form_' + case.get('form', 'array'))
     if case.get('pre'):
         labels.add('history')
+    if case.get('recycle'):
+        labels.add('recycled')
+        labels.add('recycled_' + case['recycle'])
+    nr = narrow_of(case)
+    if nr is not None:
+        labels.add('narrow_' + nr['f'].replace('>', 'be_'))
+        labels.add('narrow_' + nr['i'].replace('>', 'be_'))
+    if case.get('decades'):
+        labels.add('decades')
+
+
+def narrow_parse_failure(case, text, e, units, x0=None):
+    """a file that is not well formed because a narrow float column left the range of its dtype during the conversion
+    (inf tokens; nan is written as an empty field): the listed storage-dtype finding.  Decided by carrying out the
+    conversion of every stored column in its dtype."""
+    st_dt = narrow_float(case)
+    if st_dt is None or units == 'lj':
+        return
+    base = base_units()
+    items = [(np.array(v, dtype=float), PROP_Q[name]) for name, v in case['props'].items() if name in PROP_Q]
+    if x0 is not None and case['narrow'].get('pos'):
+        items.append((x0, 'length'))
+    for a, q in items:
+        try:
+            f = LU.factor(units, q, base)[0]
+        except KeyError:
+            continue
+        with np.errstate(all='ignore'):
+            emu = a.astype(st_dt) / np.asarray(1.0 / f, dtype=st_dt)
+        if not np.all(np.isfinite(emu)):
+            raise Violation('not a well-formed file: %s - a %s column stored as %s was converted in %s and left its range '
+                            '(inf tokens / nan written as an empty field)' % (e, q, st_dt, st_dt), key=K_NARROW)
 
 
 def build_potential(p):
@@ -896,7 +1191,7 @@ def system_labels(case, s0, V):
     c = case['cell']
     labs = set(gens.cell_labels(c)) - {'tilted'}
     # tilted: a tilt that survives Box's clean-up (rotated cells - POSCAR only - are judged on the unrotated cell)
-    if is_tilted(V if not c.get('rot') else cleaned_vects(gens.cell_vects(dict(c, rot=None)))[0]):
+    if is_tilted(V if not (c.get('rot') or c.get('P')) else cleaned_vects(gens.cell_vects(dict(c, rot=None, P=None)))[0]):
         labs.add('tilted')
     if c.get('tiny'):
         labs.add('tiny_tilt')
@@ -917,6 +1212,13 @@ def system_labels(case, s0, V):
     labs.add('pbc_all' if all(p) else 'pbc_none' if not any(p) else 'pbc_mixed')
     if len(set(case['atype'])) < max(case['atype']):
         labs.add('type_gap')
+    g7.near_labels(case['rel'], labs)
+    if c.get('sym'):
+        labs.add('sym')
+        labs.add('sym_' + c['sym'])
+    if c.get('P') is not None:
+        labs.add('sym')
+        labs.add('sym_perm')
     form_labels(case, labs)
     return labs, outside
 
@@ -939,12 +1241,25 @@ def style_labels(style, units, base, labels):
                     labels.add('shared_scaled_' + c)
 
 
+def _nonnative(case):
+    if 'calls' in case:
+        return any(_nonnative(c['case']) for c in case['calls'])
+    nr = narrow_of(case)
+    return nr is not None and (nr['f'].startswith('>') or nr['i'].startswith('>'))
+
+
 def guarded(inner):
     def oracle(case):
         try:
             return inner(case)
         except OnRung:
             return {'onrung'}
+        except ValueError as e:
+            if 'Big-endian buffer not supported on little-endian compiler' in str(e) and _nonnative(case):
+                raise Violation('a writer raised ValueError(%s) for a system whose per-atom arrays are stored big-endian (%r): '
+                                'the DataFrame of the atoms is built on the arrays as stored and pandas cannot re-order '
+                                'non-native columns' % (e, case.get('narrow')), key=K_BIGENDIAN)
+            raise
     oracle.__name__ = inner.__name__.lstrip('_')
     return oracle
 
@@ -970,6 +1285,8 @@ def call_data_dump(case, system):
     kw = dict(atom_style=case['style_arg'], units=case['units_arg'], float_format=case['fmt'])
     if case.get('natypes_extra'):
         kw['natypes'] = expected_natypes(case)
+        if narrow_of(case) is not None and case['narrow']['scalar']:
+            kw['natypes'] = np.dtype(case['narrow']['i']).type(kw['natypes'])       # a numpy integer scalar
     if 'safecopy' in case:
         kw['safecopy'] = case['safecopy']
     if 'return_info' in case:
@@ -1025,6 +1342,7 @@ def call_data_dump(case, system):
 
 def _oracle_data(case):
     import atomman as am
+    case = narrowed(case)
     V, o, s0, x0 = snapshot(case)
     labels, outside = system_labels(case, s0, V)
     style, units, fmt = case['style'], case['units'], case['fmt']
@@ -1032,9 +1350,16 @@ def _oracle_data(case):
     n = len(x0)
     base = base_units()
     kn = Known()
-    system = build_system(am, case, V, o, x0)
+    held = {}
+    system = build_system(am, case, V, o, x0, held)
+    before = sys_state(system, held)
     V_sys = V
     ret, fname = call_data_dump(case, system)
+    # what the caller handed in is as it was: everything with safecopy; without, the documented in-place wrap may move the
+    # positions (also in the caller's own position array, which Atoms may share) and extend the cell - nothing else
+    require_untouched(before, system, held, "dump('atom_data', safecopy=%r)" % case['safecopy'],
+                      () if case['safecopy'] else ('view:pos', 'caller:pos', 'vects', 'origin'))
+    labels.add('inputs_kept')
     info = None
     if case['return_info']:
         require(isinstance(ret, tuple) and len(ret) == 2 and all(isinstance(r, str) for r in ret),
@@ -1046,6 +1371,7 @@ def _oracle_data(case):
     try:
         d = LD.parse(text)
     except LD.FormatError as e:
+        narrow_parse_failure(case, text, e, units)
         raise Violation('not a well-formed data file: %s\n%s' % (e, text[:600]))
     # ---- header counts
     require(d['natoms'] == n, lambda: 'header says %d atoms, the system has %d' % (d['natoms'], n))
@@ -1137,6 +1463,7 @@ def _oracle_data(case):
     try:
         interps = LD.split_atoms(sec['Atoms']['rows'], style)
     except LD.FormatError as e:
+        narrow_parse_failure(case, text, e, units)
         raise Violation('Atoms section malformed for atom_style %s: %s\n%s' % (style, e, text[:600]))
     first = None
     result = None
@@ -1159,6 +1486,7 @@ def _oracle_data(case):
         try:
             vcols, vrecs = LD.split_velocities(sec['Velocities']['rows'], style)
         except LD.FormatError as e:
+            narrow_parse_failure(case, text, e, units)
             raise Violation('Velocities section malformed for atom_style %s: %s' % (style, e))
         vids = [int(r['id']) for r in vrecs]
         require(sorted(vids) == sorted(ids), lambda: 'Velocities atom-IDs %r differ from the Atoms ids %r' % (vids, ids))
@@ -1170,8 +1498,12 @@ def _oracle_data(case):
                 val = case['props'][pname][k]
                 if comp is not None:
                     val = val[comp]
-                cmp_value(kn, 'Velocities atom %d column %s' % (k, cname), r[cname], val, q, units, hybrid, base)
+                cmp_value(kn, 'Velocities atom %d column %s' % (k, cname), r[cname], val, q, units, hybrid, base,
+                          store=narrow_float(case))
         labels.add('velocities')
+    # ---- rows spanning many decades: the row of the smallest atom is the row of that atom written alone
+    if case.get('decades') and case.get('pot') is None:
+        single_row_data(am, case, V, o, x0, sec, style, ids)
     # ---- the caller's system: untouched with safecopy, else the wrapped state that was written
     if case['safecopy']:
         require(np.array_equal(system.atoms.pos, x0) and np.array_equal(system.box.vects, am.Box(vects=V_sys, origin=o).vects)
@@ -1226,7 +1558,8 @@ def _check_atoms(case, cols, recs, flags, kn, own, x0L, Vw, dVw, lo, hlo, arith,
                 if cname in LD.INT_COLUMNS:
                     cmp_int('atom %d column %s' % (k, cname), rec[cname], val)
                 else:
-                    cmp_value(kn, 'atom %d column %s' % (k, cname), rec[cname], val, q, units, hybrid, base)
+                    cmp_value(kn, 'atom %d column %s' % (k, cname), rec[cname], val, q, units, hybrid, base,
+                              store=narrow_float(case) if PROPGEN[pname][0] != 'int' else None)
     # positions: image flags re-applied with the WRITTEN cell give the system's positions
     order = np.array(idx)
     target = x0L[order]
@@ -1267,9 +1600,35 @@ def _check_atoms(case, cols, recs, flags, kn, own, x0L, Vw, dVw, lo, hlo, arith,
     return ids, bool(np.any(F != 0))
 
 
+def single_row_data(am, case, V, o, x0, sec, style, ids):
+    """decades: the atom whose values are the smallest of the file is written again as a one-atom system (same cell, style,
+    units, format); its non-position tokens must be the same strings"""
+    k = int(np.argmin(case['decades']))
+    one = dict(case, rel=[case['rel'][k]], atype=[case['atype'][k]], pre=None, recycle=None,
+               props={name: [v[k]] for name, v in case['props'].items()})
+    sys1 = build_system(am, one, V, o, x0[k:k + 1])
+    text1 = sys1.dump('atom_data', atom_style=case['style'], units=case['units'], float_format=case['fmt'], safecopy=True,
+                      return_info=False)
+    d1 = LD.parse(text1)
+    own = case['props'].get('atom_id')
+    idk = k + 1 if sorted(ids) == list(range(1, len(ids) + 1)) else own[k]
+    pairs = [(LD.split_atoms(sec['Atoms']['rows'], style)[0][:2], LD.split_atoms(d1['sections']['Atoms']['rows'], style)[0][:2])]
+    if 'Velocities' in sec:
+        pairs.append((LD.split_velocities(sec['Velocities']['rows'], style), LD.split_velocities(d1['sections']['Velocities']['rows'], style)))
+    for (cols, recs), (cols1, recs1) in pairs:
+        rec = [r for r in recs if int(r['id']) == idk][0]
+        for cname in cols:
+            if cname in ('id', 'x', 'y', 'z'):
+                continue
+            require(rec[cname] == recs1[0][cname],
+                    lambda: 'decades: atom %d column %s reads %s in the file of all atoms (per-atom powers of ten %r) and %s when '
+                            'the atom is written alone' % (k, cname, rec[cname], case['decades'], recs1[0][cname]))
+
+
 def _pre_data(case):
     """an earlier data file of the same system with the same style, units and format (not judged here)"""
     import atomman as am
+    case = narrowed(case)
     V, o, s0, x0 = snapshot(case)
     system = build_system(am, dict(case, pre=None), V, o, x0)
     try:
@@ -1449,10 +1808,14 @@ def judge_snippet(case, info, fname, labels, kn=None):
 
 def _oracle_snippet(case):
     import atomman as am
+    case = narrowed(case)
     V, o, s0, x0 = snapshot(case)
     labels, outside = system_labels(case, s0, V)
-    system = build_system(am, case, V, o, x0)
+    held = {}
+    system = build_system(am, case, V, o, x0, held)
+    before = sys_state(system, held)
     ret, fname = call_data_dump(case, system)
+    require_untouched(before, system, held, "dump('atom_data')", ('view:pos', 'caller:pos', 'vects', 'origin'))
     require(isinstance(ret, tuple) and len(ret) == 2 and isinstance(ret[1], str), lambda: 'expected (content, info), got %r' % (type(ret),))
     text, info = ret
     style, units = case['style'], case['units']
@@ -1493,23 +1856,36 @@ DUMPCOLS = {   # System property -> (dump custom column names, LAMMPS quantity)
 }
 
 
+def dump_kwargs(case):
+    kw = dict(lammps_units=case['units'], float_format=case['fmt'])
+    if case['prop_name'] is not None:
+        kw['prop_name'] = list(case['prop_name'])
+    return kw
+
+
 def _oracle_dump(case):
     import atomman as am
+    case = narrowed(case)
     V, o, s0, x0 = snapshot(case)
     labels, outside = system_labels(case, s0, V)
     units, fmt = case['units'], case['fmt']
     n = len(x0)
     base = base_units()
     kn = Known()
-    system = build_system(am, case, V, o, x0)
-    kw = dict(lammps_units=units, float_format=fmt)
-    if case['prop_name'] is not None:
-        kw['prop_name'] = list(case['prop_name'])
+    held = {}
+    system = build_system(am, case, V, o, x0, held)
+    before = sys_state(system, held)
+    kw = dump_kwargs(case)
+    names_arg = kw.get('prop_name')
     buf = None
     if case.get('sink') == 'io':
         buf = kw['f'] = io.StringIO()
     try:
         text = system.dump('atom_dump', **kw)
+        # a writer that does not modify: the system, the arrays it was built from and the list of names are as they were
+        require_untouched(before, system, held, "dump('atom_dump')")
+        require(names_arg is None or names_arg == case['prop_name'], lambda: "dump('atom_dump') changed the caller's prop_name list to %r" % (names_arg,))
+        labels.add('inputs_kept')
         if buf is not None:
             require(text is None, lambda: 'f=<file-like>: expected None, got %r' % (type(text),))
             text = buf.getvalue()
@@ -1527,6 +1903,7 @@ def _oracle_dump(case):
     try:
         d = LP.parse(text)
     except LP.FormatError as e:
+        narrow_parse_failure(case, text, e, units, x0)
         raise Violation('not a well-formed dump file: %s\n%s' % (e, text[:600]))
     require(d['natoms'] == n, lambda: 'NUMBER OF ATOMS %d, system has %d' % (d['natoms'], n))
     for i in range(3):
@@ -1600,7 +1977,8 @@ def _oracle_dump(case):
         for cname, (p, index, q) in colinfo.items():
             tok = row[ci[cname]]
             if p in ('pos', 'upos'):
-                cmp_value(kn, 'atom %d column %s' % (k, cname), tok, x0[k][index[0]], 'length', units, False, base, extra_abs=arith)
+                cmp_value(kn, 'atom %d column %s' % (k, cname), tok, x0[k][index[0]], 'length', units, False, base, extra_abs=arith,
+                          store=narrow_float(case) if system.atoms.pos.dtype != np.float64 else None)
                 continue
             if p in ('spos', 'supos'):
                 continue
@@ -1610,7 +1988,7 @@ def _oracle_dump(case):
             if isinstance(val, int):
                 cmp_int('atom %d column %s' % (k, cname), tok, val)
             else:
-                cmp_value(kn, 'atom %d column %s' % (k, cname), tok, val, q, units, False, base)
+                cmp_value(kn, 'atom %d column %s' % (k, cname), tok, val, q, units, False, base, store=narrow_float(case))
         for p in ('spos', 'supos'):
             if p in names:
                 cn = DUMPCOLS[p][0]
@@ -1628,10 +2006,34 @@ def _oracle_dump(case):
             labels.add('has_' + p)
     if tilted and (xy < 0 or xz < 0 or xy + xz < 0 or yz < 0):
         labels.add('neg_tilt')
+    if len([p for p in names if p in POSVARIANTS]) == 4:
+        labels.add('all_pos_variants')
+    if case.get('decades'):
+        single_row_dump(am, case, V, o, x0, d, ci, ids, colinfo)
     if (labels & {'tilted', 'origin'}) and outside and (units != 'metal' or (set(names) - {'atom_id', 'atype', 'pos'})):
         labels.add('nt')
     kn.finish()
     return labels
+
+
+def single_row_dump(am, case, V, o, x0, d, ci, ids, colinfo):
+    """decades: the smallest atom written alone (same cell, unit style, format, columns) gives the same tokens in every
+    column that is not a position"""
+    k = int(np.argmin(case['decades']))
+    one = dict(case, rel=[case['rel'][k]], atype=[case['atype'][k]], pre=None, recycle=None,
+               props={name: [v[k]] for name, v in case['props'].items()})
+    sys1 = build_system(am, one, V, o, x0[k:k + 1])
+    d1 = LP.parse(sys1.dump('atom_dump', **dump_kwargs(case)))
+    own = case['props'].get('atom_id')
+    idk = own[k] if own is not None else k + 1
+    row = d['rows'][ids.index(idk)]
+    c1 = {cname: j for j, cname in enumerate(d1['columns'])}
+    for cname, (p, index, q) in colinfo.items():
+        if p in POSVARIANTS:
+            continue
+        require(row[ci[cname]] == d1['rows'][0][c1[cname]],
+                lambda: 'decades: atom %d column %s reads %s in the file of all atoms (per-atom powers of ten %r) and %s when the '
+                        'atom is written alone' % (k, cname, row[ci[cname]], case['decades'], d1['rows'][0][c1[cname]]))
 
 
 def _dump_props(case):
@@ -1643,6 +2045,7 @@ def _dump_props(case):
 def _pre_dump(case):
     """an earlier dump file of the same system with the same unit style and format (not judged here)"""
     import atomman as am
+    case = narrowed(case)
     V, o, s0, x0 = snapshot(case)
     system = build_system(am, dict(case, pre=None), V, o, x0)
     kw = dict(lammps_units=case['units'], float_format=case['fmt'])
@@ -1673,24 +2076,40 @@ def _match_rows(got, exp, tol):
     return bool(np.all(mt >= 0))
 
 
-def _oracle_poscar(case):
-    import atomman as am
-    V, o, s0, x0 = snapshot(case)
-    labels, outside = system_labels(case, s0, V)
-    n = len(x0)
-    kn = Known()
-    system = build_system(am, case, V, o, x0)
+def poscar_kwargs(case):
     scale = float(case['scale'])
+    nr = narrow_of(case)
+    if nr is not None and nr['scalar']:
+        scale = np.dtype(nr['f'] if nr['f'] in ('float32', 'float16') else 'float32').type(scale)      # a numpy floating scalar (exact: narrowed())
     kw = dict(header=case['header'], coordstyle=case['coord'], box_scale=scale)
     if case['fmt'] is not None:
         kw['float_format'] = case['fmt']
     if case['symbols_arg'] is not None:
         kw['symbols'] = list(case['symbols_arg'])
+    return kw
+
+
+def _oracle_poscar(case):
+    import atomman as am
+    case = narrowed(case)
+    V, o, s0, x0 = snapshot(case)
+    labels, outside = system_labels(case, s0, V)
+    n = len(x0)
+    kn = Known()
+    held = {}
+    system = build_system(am, case, V, o, x0, held)
+    before = sys_state(system, held)
+    scale = float(case['scale'])
+    kw = poscar_kwargs(case)
+    syms_arg = kw.get('symbols')
     buf = None
     if case.get('sink') == 'io':
         buf = kw['f'] = io.StringIO()
     try:
         text = system.dump('poscar', **kw)
+        require_untouched(before, system, held, "dump('poscar')")
+        require(syms_arg is None or syms_arg == case['symbols_arg'], lambda: "dump('poscar') changed the caller's symbols list to %r" % (syms_arg,))
+        labels.add('inputs_kept')
         if buf is not None:
             require(text is None, lambda: 'f=<file-like>: expected None, got %r' % (type(text),))
             text = buf.getvalue()
@@ -1764,6 +2183,14 @@ def _oracle_poscar(case):
         detail = ('positions: actual coordinates read from the file (scale applied%s) differ from the system\'s, with or without '
                   'the box origin; first rows read %r, system %r' % (' to Cartesian numbers' if want_cart else '',
                                                                       X[:2].tolist(), x0[order[:2]].tolist()))
+        st_dt = narrow_float(case) if system.atoms.pos.dtype != np.float64 else None
+        if want_cart and st_dt is not None:
+            # positions stored in a narrow float dtype: division by the scale factor carried out in that dtype
+            tolN = tolX + 4 * float(np.finfo(st_dt).eps) * np.abs(X)
+            def m3(target):
+                return all(_match_rows(X[offs[t]:offs[t + 1]], target[order[offs[t]:offs[t + 1]]], tolN[offs[t]:offs[t + 1]]) for t in range(ntyp))
+            if m3(x0) or m3(x0 - o):
+                raise Violation(detail + ' [positions stored as %s: they were divided by the scale factor in %s]' % (st_dt, st_dt), key=K_POSCAR_NARROW)
         if want_cart and abs(sc - 1) > 1e-9:
             Xu = R.copy()
             tolU = hR + arith
@@ -1774,18 +2201,201 @@ def _oracle_poscar(case):
         raise Violation(detail)
     labels.add('cartesian' if want_cart else 'direct')
     labels.add('scale1' if scale == 1.0 else 'scaled')
+    if scale != 1.0 and abs(scale - 1.0) <= 1.001e-3:
+        labels.add('scale_near1')
     labels.add('fmt_%s' % case['fmt'])
     if 0 in exp_counts:
         labels.add('zero_count')
     if case['symbols_arg'] is not None:
         labels.add('symbols_arg')
-    if (labels & {'tilted', 'rotated', 'origin'}) and (scale != 1.0 or want_cart):
+    if (labels & {'tilted', 'rotated', 'origin', 'sym_perm'}) and (scale != 1.0 or want_cart):
         labels.add('nt')
     kn.finish()
     return labels
 
 
 oracle_poscar = guarded(_oracle_poscar)
+
+
+# ============================================================================= result ledger and caller-side mutation
+# A ledger case is a short sequence of writer calls (atom_dump with return_prop_info=True, atom_data, poscar), each on its own
+# System.  Everything a call returned - content, command snippet, the prop_info list of dicts, the file-like object written
+# to - is kept together with a copy; the system and the caller's arrays are recorded as the call left them.  Then: later
+# calls on other objects and (non-modifying ones, other unit styles) on the same objects; the returned prop_info handed back
+# in as the caller's own, partially filled prop_info= list; the ledger re-read (nothing a call returned or was handed may have
+# moved); every call repeated on a fresh object (bit-identical output); the caller overwrites what it was handed out (the
+# prop_info lists) and what it handed in (its arrays, the systems, through in-place writes and setters); every call repeated
+# once more (still the first answers); finally every call is judged by the oracle of its own clause, in the process in which
+# all of this happened.
+
+def ledger_sub(sub, kind):
+    """a generated case of clause `kind` as a ledger call: default working units, no named file, floats stored as doubles
+    (the two listed storage-dtype findings are met in the clauses themselves)"""
+    sub = dict(sub)
+    sub['wu'] = None
+    if sub.get('sink') == 'path':
+        sub['sink'] = 'str'
+    if sub.get('form') == 'narrow':
+        nr = sub['narrow']
+        sub['narrow'] = dict(nr, f='float64', i='int16' if nr['i'].startswith('>') else nr['i'])
+    return sub
+
+
+_LEDGER_KIND = st.sampled_from(('dump', 'dump', 'data', 'poscar'))
+_LEDGER_N = st.sampled_from((2, 2, 3))
+
+
+@st.composite
+def ledger_cases(draw):
+    calls = []
+    for _ in range(draw(_LEDGER_N)):
+        kind = draw(_LEDGER_KIND)
+        calls.append({'kind': kind, 'case': ledger_sub(draw(_SUB_CASES[kind]), kind)})
+    return {'calls': calls, 'bits': draw(_BITS)}
+
+
+def raw_call(am, kind, case):
+    """one writer call on a freshly built System; everything it returned"""
+    case = narrowed(case)
+    V, o, s0, x0 = snapshot(case)
+    held = {}
+    system = build_system(am, case, V, o, x0, held)
+    rec = {'kind': kind, 'case': case, 'system': system, 'held': held, 'info': None, 'pinfo': None, 'buf': None}
+    if kind == 'data':
+        ret, fname = call_data_dump(case, system)
+        rec['text'], rec['info'] = ret if isinstance(ret, tuple) else (ret, None)
+        return rec
+    kw = dump_kwargs(case) if kind == 'dump' else poscar_kwargs(case)
+    if kind == 'dump':
+        kw['return_prop_info'] = True
+    if case.get('sink') == 'io':
+        rec['buf'] = kw['f'] = io.StringIO()
+    ret = system.dump('atom_dump' if kind == 'dump' else 'poscar', **kw)
+    if kind == 'dump':
+        if rec['buf'] is None:
+            require(isinstance(ret, tuple) and len(ret) == 2, lambda: 'return_prop_info=True: expected (content, prop_info), got %r' % (type(ret),))
+            rec['text'], rec['pinfo'] = ret
+        else:
+            rec['text'], rec['pinfo'] = rec['buf'].getvalue(), ret
+        require(isinstance(rec['pinfo'], list) and all(isinstance(q, dict) for q in rec['pinfo']),
+                lambda: 'return_prop_info=True: prop_info is %r, a list of dict is documented' % (type(rec['pinfo']),))
+    else:
+        rec['text'] = ret if rec['buf'] is None else rec['buf'].getvalue()
+    require(isinstance(rec['text'], str), lambda: 'content is %r' % (type(rec['text']),))
+    return rec
+
+
+def partial_prop_info(pinfo):
+    """what a caller writes by hand from a returned prop_info: names, column names (a str for one column, a tuple for
+    several), units; shape only where the number of columns does not give it; no dtype"""
+    out = []
+    for q in pinfo:
+        tn = list(q['table_name'])
+        r = {'prop_name': q['prop_name'], 'table_name': tn[0] if len(tn) == 1 else tuple(tn)}
+        if len(tuple(q['shape'])) > 1:
+            r['shape'] = list(q['shape'])
+        if q.get('unit') is not None:
+            r['unit'] = q['unit']
+        out.append(r)
+    return out
+
+
+def _lammps_cell(case):
+    return not (case['cell'].get('rot') or case['cell'].get('P'))
+
+
+def _oracle_ledger(case):
+    import atomman as am
+    labels = {'ledger', 'calls_%d' % len(case['calls'])}
+    bits = case['bits']
+    recs = []
+    for c in case['calls']:
+        rec = raw_call(am, c['kind'], c['case'])
+        rec['kept'] = (rec['text'], rec['info'], copy.deepcopy(rec['pinfo']))
+        rec['after'] = sys_state(rec['system'], rec['held'])
+        recs.append(rec)
+        if rec['pinfo'] is not None:
+            # the returned prop_info lists the columns of the file it came with, in order
+            cols = LP.parse(rec['text'])['columns']
+            flat = [t for q in rec['pinfo'] for t in q['table_name']]
+            require(flat == cols, lambda: 'returned prop_info lists the columns %r, the file has %r' % (flat, cols))
+            labels.add('pinfo_returned')
+    if len([r for r in recs if r['kind'] == 'dump']) >= 2:
+        labels.add('two_dumps')
+    # ---- later, non-modifying uses of the same objects under other unit styles
+    for i, rec in enumerate(recs):
+        if (bits >> i) & 1:
+            sysm = rec['system']
+            sysm.dump('poscar', box_scale=2.0, coordstyle='cartesian')
+            if _lammps_cell(rec['case']):
+                sysm.dump('atom_dump', lammps_units=('si', 'nano', 'real')[(bits >> 3) % 3], prop_name=['atom_id', 'atype', 'spos', 'upos'])
+                sysm.dump('atom_data', units=('cgs', 'micro', 'electron')[(bits >> 5) % 3], atom_style='atomic', safecopy=True)
+            labels.add('later_same_object')
+    # ---- the returned prop_info handed back in, as the caller's own partially filled list
+    for rec in recs:
+        if rec['pinfo'] is not None and (bits >> 7) & 1:
+            mine = partial_prop_info(rec['pinfo'])
+            keep = copy.deepcopy(mine)
+            text2 = rec['system'].dump('atom_dump', prop_info=mine, lammps_units=rec['case']['units'], float_format=rec['case']['fmt'])
+            require(repr(mine) == repr(keep), lambda: "dump('atom_dump', prop_info=...) changed the caller's prop_info list:\nbefore %r\nafter  %r" % (keep, mine))
+            require(text2 == rec['text'], lambda: 'the file written through prop_info= (the returned prop_info, re-typed by hand) differs from the file '
+                                                   'it was returned with:\n%s\n---\n%s' % (text2[:500], rec['text'][:500]))
+            labels.add('pinfo_in')
+    # ---- the ledger, re-read after everything that happened since
+    def reread(when):
+        for i, rec in enumerate(recs):
+            require((rec['text'], rec['info']) == rec['kept'][:2] and rec['pinfo'] == rec['kept'][2],
+                    lambda: 'call %d (%s): what the call returned changed %s: prop_info %r, was %r' % (i, rec['kind'], when, rec['pinfo'], rec['kept'][2]))
+            if rec['buf'] is not None:
+                require(rec['buf'].getvalue() == rec['text'], lambda: 'call %d (%s): the file-like object written to changed %s' % (i, rec['kind'], when))
+            diff = state_diff(rec['after'], sys_state(rec['system'], rec['held']))
+            require(not diff, lambda: 'call %d (%s): the system / the caller\'s arrays changed %s: %s' % (i, rec['kind'], when, ', '.join(diff)))
+    reread('after later calls on this and other objects')
+    # ---- every call again on a fresh object: bit-identical
+    def again(when):
+        for i, (c, rec) in enumerate(zip(case['calls'], recs)):
+            r2 = raw_call(am, c['kind'], c['case'])
+            require(r2['text'] == rec['kept'][0] and r2['info'] == rec['kept'][1] and r2['pinfo'] == rec['kept'][2],
+                    lambda: 'call %d (%s) repeated on a fresh object %s gives another result:\n%s\n--- first\n%s\nprop_info %r, first %r'
+                            % (i, rec['kind'], when, r2['text'][:400], rec['kept'][0][:400], r2['pinfo'], rec['kept'][2]))
+    again('after later calls')
+    reread('after the calls were repeated')
+    # ---- the caller overwrites what it was handed out and what it handed in
+    for rec in recs:
+        if rec['pinfo'] is not None:
+            for q in rec['pinfo']:
+                q['table_name'].reverse()
+                q['table_name'].append('junk')
+                q['unit'] = 'nm'
+                q['shape'] = (7,)
+            rec['pinfo'].reverse()
+            del rec['pinfo'][:1]
+        sysm = rec['system']
+        for k, a in sysm.atoms.view.items():
+            if k != 'atype' and a.flags.writeable:
+                a[...] = 7 if a.dtype.kind in 'iu' else -3.25
+        if (bits >> 8) & 1:
+            sysm.atoms.pos = np.full((sysm.natoms, 3), 0.125)
+            sysm.box_set(vects=np.array(sysm.box.vects) * 3.0, origin=[1.0, 2.0, 3.0])
+        else:
+            sysm.box.set(a=2.0, b=3.0, c=5.0, alpha=80.0, beta=70.0, gamma=65.0)
+        sysm.pbc = [not bool(b) for b in sysm.pbc]
+        for a in rec['held'].values():
+            if isinstance(a, np.ndarray) and a.flags.writeable and a.dtype.kind == 'f':
+                a[...] = 1e30 if a.dtype.itemsize > 2 else 6e4
+    labels.add('caller_overwrote')
+    again('after the caller overwrote the returned prop_info lists, its arrays and the systems')
+    # ---- every call judged by the oracle of its clause, here and now
+    nt = False
+    for c in case['calls']:
+        sub = _SUB_ORACLES[c['kind']](c['case'])
+        labels.add('kind_' + c['kind'])
+        nt = nt or 'nt' in sub
+        labels |= {l for l in sub if l in ('recycled', 'history', 'form_narrow', 'form_list', 'form_strided', 'form_fortran', 'form_readonly',
+                                           'tiny_tilt', 'near_face', 'decades', 'sym', 'filelike', 'potential')}
+    if nt:
+        labels.add('nt')
+    return labels
 
 
 # ============================================================================= hybrids with shared columns, enumerated
@@ -1857,43 +2467,63 @@ def _blocked():
 
 _BLOCKED = _blocked()
 
+_SUB_CASES = {'data': data_cases(), 'dump': dump_cases(), 'poscar': poscar_cases()}
+_SUB_ORACLES = {'data': oracle_data, 'dump': oracle_dump, 'poscar': oracle_poscar}
+oracle_ledger = guarded(_oracle_ledger)
+
 CLAUSES = [
-    Clause('data', oracle_data, data_cases, quick=8000, thorough=150000,
+    Clause('data', oracle_data, data_cases, quick=6000, thorough=150000,
            min_share={'shared': 0.12, 'shared_scaled': 0.085, 'shared_2': 0.045, 'shared_3': 0.07, 'tiny_tilt': 0.09,
                       'tiny_1e-9_1e-5': 0.05, 'tiny_cleaned': 0.05, 'tiny_1e-5_1e-3': 0.03, 'wu': 0.13, 'wu_pre_default': 0.065,
                       'wu_pre_other': 0.028, 'wu_named': 0.085, 'wu_seed': 0.015, 'wu_SI': 0.013,
                       'nt': 0.15, 'imageflags': 0.18, 'extended': 0.3, 'velocities': 0.11, 'only_yz': 0.015,
                       'hybrid': 0.02, 'safecopy': 0.09, 'potential': 0.07, 'pot_override': 0.024, 'pot_own': 0.02,
                       'filename': 0.022, 'read_data': 0.012, 'history': 0.08, 'form_list': 0.04, 'form_fortran': 0.045,
-                      'form_readonly': 0.06, 'form_strided': 0.055},
+                      'form_readonly': 0.06, 'form_strided': 0.055,
+                      'near_face': 0.085, 'near_1e-12_1e-8': 0.022, 'near_1e-8_1e-3': 0.07, 'sym': 0.04, 'sym_half': 0.018, 'decades': 0.04,
+                      'form_narrow': 0.045, 'recycled': 0.05, 'recycled_inplace': 0.025, 'recycled_setter': 0.018,
+                      'inputs_kept': 0.45},
            desc="dump('atom_data') (also via potential= and into a named file): header counts, lo<hi, tilt line, ids, containment, "
                 "cell (wrap contract), types, positions with image flags re-applied, per-style columns and Velocities against the "
                 "independent unit table; the returned snippet judged as in clause snippet"),
     Clause('hybrid_shared', oracle_data, enumerate=hybrid_enum, nontrivial='shared_scaled',
-           min_share={'shared_scaled': 0.9, 'shared_3': 0.4, 'shared_2': 0.065, 'velocities': 0.25, 'shared_scaled_q': 0.15,
+           min_share={'shared_scaled': 0.9, 'shared_3': 0.4, 'shared_2': 0.012, 'velocities': 0.25,      # (shared_2: 0.13 quick, 0.025 thorough - all 6 orders of every triple there; 0.065 tripped in the thorough tier)
+                      'shared_scaled_q': 0.15,
                       'shared_scaled_density': 0.3, 'shared_scaled_mass': 0.02, 'shared_scaled_volume': 0.02, 'shared_scaled_eradius': 0.025},
            desc="dump('atom_data') for every combination of two and three sub-styles of atom_style hybrid that share a column with a "
                 "LAMMPS unit, under every unit style that rescales it: the shared column is listed once and converted once"),
-    Clause('dump', oracle_dump, dump_cases, quick=5500, thorough=100000,
+    Clause('dump', oracle_dump, dump_cases, quick=4000, thorough=100000,
            min_share={'tiny_tilt': 0.085, 'tiny_1e-9_1e-5': 0.04, 'tiny_cleaned': 0.045, 'tiny_1e-5_1e-3': 0.035, 'wu': 0.12,
                       'wu_pre_default': 0.065, 'wu_pre_other': 0.025, 'wu_named': 0.08, 'wu_seed': 0.017, 'wu_SI': 0.014,
                       'nt': 0.2, 'explicit': 0.12, 'neg_tilt': 0.08, 'own_ids': 0.12, 'history': 0.035, 'form_list': 0.06,
-                      'form_fortran': 0.065, 'form_readonly': 0.05, 'form_strided': 0.055},
+                      'form_fortran': 0.065, 'form_readonly': 0.05, 'form_strided': 0.055,
+                      'near_face': 0.1, 'near_1e-12_1e-8': 0.03, 'sym': 0.065, 'sym_half': 0.025, 'decades': 0.05, 'form_narrow': 0.03,
+                      'recycled': 0.1, 'all_pos_variants': 0.035, 'inputs_kept': 0.45},
            desc="dump('atom_dump'): ITEM blocks, boundary flags, bounding box <-> lo/hi/tilt relation, column header, "
                 "x|xs|xu|xsu unscaled with the written box, standard columns in LAMMPS units, extras as stored"),
-    Clause('poscar', oracle_poscar, poscar_cases, quick=5000, thorough=80000,
+    Clause('poscar', oracle_poscar, poscar_cases, quick=4400, thorough=80000,
            min_share={} if 'poscar' in _BLOCKED else {'tiny_tilt': 0.08, 'tiny_1e-9_1e-5': 0.037, 'tiny_cleaned': 0.05, 'tiny_1e-5_1e-3': 0.03,
                                                               'nt': 0.15, 'cartesian': 0.08, 'scaled': 0.12, 'symbols': 0.15, 'zero_count': 0.05,
                                                               'repeated_symbol': 0.06, 'form_list': 0.045, 'form_fortran': 0.037,
-                                                              'form_readonly': 0.055, 'form_strided': 0.04},
+                                                              'form_readonly': 0.055, 'form_strided': 0.04,
+                                                              'near_face': 0.1, 'near_1e-12_1e-8': 0.04, 'sym': 0.09, 'sym_perm': 0.07,
+                                                              'scale_near1': 0.15, 'form_narrow': 0.035,
+                                                              'recycled': 0.045, 'inputs_kept': 0.45},
            desc="dump('poscar'): comment, scale, scale*lattice = box, species line, counts per type, mode line, "
                 "positions with the scale applied (up to the box origin), grouped by type"),
-    Clause('snippet', oracle_snippet, snippet_cases, quick=1500, thorough=20000,
+    Clause('ledger', oracle_ledger, ledger_cases, quick=350, thorough=12000,
+           min_share={'two_dumps': 0.16, 'pinfo_returned': 0.38, 'pinfo_in': 0.12, 'later_same_object': 0.25, 'kind_data': 0.17,
+                      'kind_poscar': 0.11, 'caller_overwrote': 0.45, 'recycled': 0.15, 'nt': 0.35},
+           desc="sequences of 2-3 writer calls (atom_dump with return_prop_info, atom_data, poscar): everything returned (content, "
+                "snippet, prop_info, file-like object) and handed in (system, caller's arrays, prop_info= list) is bit-identical after later "
+                "calls on the same and other objects; repeated calls on fresh objects give bit-identical files, also after the caller "
+                "overwrote what it was handed; every call judged by the oracle of its clause"),
+    Clause('snippet', oracle_snippet, snippet_cases, quick=1400, thorough=20000,
            min_share={} if 'snippet' in _BLOCKED else {'shared': 0.12, 'wu': 0.11, 'tiny_tilt': 0.085,
                                                                'nt': 0.4, 'defaults': 0.01, 'pot': 0.22, 'pot_override': 0.18,
                                                                'pot_own': 0.08, 'pot_prior_use': 0.05, 'pot_allsymbols_added': 0.02,
                                                                'pot_sysmasses': 0.08, 'pot_comments': 0.08, 'read_data': 0.02,
-                                                               'history': 0.12},
+                                                               'history': 0.12, 'form_narrow': 0.05, 'recycled': 0.05, 'sym': 0.065},
            desc="command snippet returned with a data file, without and with potential= (explicit units/atom_style overriding "
                 "the potential's): boundary flags, units and atom_style actually used, read_data file name, command order, "
                 "pair_style/pair_coeff/mass lines for exactly the atom types of the file, comments switch"),
